@@ -28,7 +28,8 @@ def matrix_task(task):
                                 C.randomize(st, rnd, mode=mode, thumb=rnd.random() < 0.5, e=e)
                                 sct = C.unlimbs(g.base['sys']['SCTLR']) & ~((1 << 22) | 2 | 1)
                                 st['sys']['SCTLR'] = limbs(sct | (u << 22) | (a << 1))
-                                base = rnd.choice([40, 104, 200, 0, 240, 0xFFFFFFF8 if rep % 3 == 2 else 72])
+                                base = rnd.choice([40, 104, 200, 0, 240, 0xFFFFFFF8 if rep % 3 == 2 else 72]) if not task.get('seam') else \
+                                    rnd.choice([task['seam'], task['seam'], task['seam'] - 8, task['seam'] - 16, 40, task['seam'] + 8])
                                 addr = (base + off) & 0xFFFFFFFF
                                 act = {'n': op, 'addr': limbs(addr), 'size': size}
                                 if op.endswith('Set'):
@@ -77,6 +78,13 @@ def run(ctx):
                                         cfg={'arch_version': arch, 'memory_list': [
                                             {'mem_type': 'RAM', 'beginning': 0, 'end': 256},
                                             {'mem_type': 'RAM', 'beginning': 0xFFFFFF00, 'end': 0x100000000}]})))
+    # two directly adjacent devices: accesses that end at, start at and sit on either side of the seam, in random order
+    # (whatever the hub remembers about the device of the previous access must not matter)
+    for i, arch in enumerate((6, 7)):
+        tasks.append((matrix_task, dict(name='mem-v%d-seam' % arch, seed=ctx.seed + 20 + i, reps=2 if q else 10, seam=128,
+                                        cfg={'arch_version': arch, 'memory_list': [
+                                            {'mem_type': 'RAM', 'beginning': 0, 'end': 128},
+                                            {'mem_type': 'RAM', 'beginning': 128, 'end': 256}]})))
     tasks.append((fetch_task, dict(name='fetch-e1', seed=ctx.seed + 50, n=400 if q else 5000, modes='all')))
     groups = C.parallel(_dispatch, tasks)
     res = C.judge_groups(ctx, groups, clause_filter, rnd=rnd,
